@@ -105,6 +105,8 @@ def _ops(case):
 TRIGGERS = {
     # non-termination in programs that combine a diagonal with an inflation / take (over-approximation, DESIGN.md section 7)
     'inflate-diagonalize-interplay': lambda case, v: genexpr.known_loop_inflate_diag(case),
+    # non-termination of the diagonal of an array inflated at a scalar index and through an index vector (found at VERIF_SEED=9)
+    'takediag-scalar-and-indexed-inflate': lambda case, v: genexpr.known_loop_takediag_inflate(case),
 }
 
 MANIFEST = dict(
